@@ -170,6 +170,11 @@ def run(ctx, f, rep):
                 full = p.ret is not None and "BufferFull" in show(p.ret)
                 rep.check(not ss and full and pathq.ret_kind(p) == "Err", "R12.2", "R12.2|%s|pending-path" % b.path,
                           "Pending: nothing is encoded (start_send %d) and Err(BufferFull) is returned (%s)" % (len(ss), full), b.loc())
+            elif arm == "ready" or arm is None:
+                # the readiness result was never decided Ok (a Ready(Err) - the connection is broken at the high-water mark - passes for
+                # "ready"): nothing may be encoded on such a path
+                rep.check(not ss, "R12.2", "R12.2|%s|start-send-only-after-ready-ok" % b.path,
+                          "start_send happens only on paths that decided poll_ready == Ready(Ok(())) (this path decided: %s)" % arm, b.loc())
             elif arm == "ready_err":
                 seen["ready_err"] += 1
                 rep.check(not ss and pathq.ret_kind(p) == "Err", "R12.2", "R12.2|%s|error-path" % b.path, "Ready(Err): nothing is encoded and the error is returned", b.loc())
